@@ -518,14 +518,17 @@ class Tifa(TifaCore, ast.NodeVisitor):
         # Handle ops
         for op, right in zip(node.ops, comparators):
             if isinstance(op, (ast.Eq, ast.NotEq, ast.Is, ast.IsNot)):
-                continue
+                compatible = True
             elif isinstance(op, (ast.Lt, ast.LtE, ast.GtE, ast.Gt)):
-                if type(right) in left.orderable:
-                    continue
+                compatible = type(right) in left.orderable
             elif isinstance(op, (ast.In, ast.NotIn)):
-                if right.allows_membership(left):
-                    continue
-            self._issue(incompatible_types(self.locate(), op, left, right, report=self.report))
+                compatible = right.allows_membership(left)
+            else:
+                compatible = False
+            if not compatible:
+                self._issue(incompatible_types(self.locate(), op, left, right, report=self.report))
+            # In a chained comparison (a < b < c) the next operator compares b with c
+            left = right
         return BoolType()
 
     def visit_comprehension(self, node):
